@@ -480,6 +480,11 @@ impl Store {
             let _ = tables
                 .records_by_key
                 .retain_in(bounds.as_ref(), |_k, _v| false);
+            let start = (namespace.as_bytes(), &[u8::MIN; 32]);
+            let end = (namespace.as_bytes(), &[u8::MAX; 32]);
+            tables
+                .latest_per_author
+                .retain_in(start..=end, |_k, _v| false)?;
             tables.namespaces.remove(namespace.as_bytes())?;
             tables.namespace_peers.remove_all(namespace.as_bytes())?;
             tables.download_policy.remove(namespace.as_bytes())?;
